@@ -124,6 +124,7 @@ def c02_b(ctx: Ctx):
                 bad = "too many paths"
             for path, facts in paths:
                 total += 1
+                facts = common.expand_facts(ctx, fi, facts)
                 if not any(_fact_ok(t, p, force_params, fn_exprs) for (t, p) in facts):
                     bad = cfg.describe_path(path)
         if bad == "too many paths":
@@ -255,6 +256,7 @@ def c02_e(ctx: Ctx):
             continue
         bad = None
         for path, facts in paths:
+            facts = common.expand_facts(ctx, fi, facts)
             established = any(t.replace(" ", "") == f"self._contains_job_id({idp})" and p for (t, p) in facts)
             if not established:
                 for i in path:
@@ -275,4 +277,14 @@ def c02_e(ctx: Ctx):
     return out
 
 
-RULES = [c02_a, c02_b, c02_c, c02_d, c02_e]
+@rule("C02-f")
+def c02_f(ctx: Ctx):
+    """Id / prefix resolution uses the directory listing, never an enumeration of the state point cache (same obligation as C08-a)."""
+    from .c08 import c08_a
+    res = c08_a(ctx)
+    for r in res:
+        r.rule = "C02-f"
+    return res
+
+
+RULES = [c02_a, c02_b, c02_c, c02_d, c02_e, c02_f]
